@@ -243,6 +243,9 @@ R06F_SITES = {
     "_concat.Concat._monotonic_divisions": "separation",
     "_collection.FrameBase.compute_current_divisions": "overlap",
     "_expr.ResolveOverlappingDivisions._layer": "overlap",
+    # divisions of a parquet dataset from per-file (min, max) statistics: a file whose minimum lies below the previous file's
+    # maximum overlaps it - the dataset is then not partitioned by the index and divisions must be reported unknown
+    "io.parquet._divisions_from_statistics": "overlap-reject",
 }
 
 
@@ -290,6 +293,10 @@ def r06f(ctx):
             found.setdefault(fq, []).append((mod, n, orient))
     for fq, role in R06F_SITES.items():
         if fq not in found:
+            if role == "overlap-reject":
+                mod_, fn_ = model.func(fq.rsplit(".", 1)[0], fq.rsplit(".", 1)[1])
+                ctx.bad(f"{fq}:range-compare#0", mod_.loc(fn_), f"{fq} never compares a file's minimum with the previous file's maximum: (min, max) pairs that merely sort lexicographically ([0, 10], [5, 15]) are reported as known divisions although the ranges overlap - loc / repartition then miss rows")
+                continue
             raise AnalysisError(f"R06f: anchor vanished: no upper-end / lower-end comparison found in {fq}")
     for fq, sites in sorted(found.items()):
         role = R06F_SITES.get(fq)
@@ -302,6 +309,12 @@ def r06f(ctx):
                 rel = {"<": ">", "<=": ">=", ">": "<", ">=": "<="}[rel]
             if role is None:
                 ctx.unclassified(cid, mod.loc(n), f"max {rel} min comparison in a function without a confirmed role")
+            elif role == "overlap-reject":
+                p_ = flow.point_of(model.func(fq.rsplit(".", 1)[0], fq.rsplit(".", 1)[1])[1], n)
+                if rel in (">", ">="):
+                    ctx.ok(cid, mod.loc(n), f"overlap (max {rel} min) is detected")
+                else:
+                    ctx.bad(cid, mod.loc(n), f"`{unparse(n)}` (max {rel} min) no longer detects overlapping file ranges")
             elif role == "separation":
                 if rel == "<":
                     ctx.ok(cid, mod.loc(n), "separation test is strict")
